@@ -71,8 +71,9 @@ func runC20(c *core.Ctx) {
 		a := rule(c, "C20.R2")
 		for _, s := range sleeps {
 			add := "(fld(Backoffer.%s,recv) + dyncall(*"
+			addH := "(fld(Backoffer.%s,recv) + param#" // the same statement inside an extracted helper (slept time passed in)
 			for _, fld := range []string{"totalSleep"} {
-				okk, w, hit := condMust(c, bw, s, core.IsReturn, isStoreTo(c, "Backoffer."+fld, fmt.Sprintf(add, fld)+"*"), nil)
+				okk, w, hit := condMust(c, bw, s, core.IsReturn, isStoreTo(c, "Backoffer."+fld, fmt.Sprintf(add, fld)+"*||"+fmt.Sprintf(addH, fld)+"*"), nil)
 				if okk {
 					a.ok(fname(bw)+" "+fld+" += realSleep", s, "every path from the sleep to a return accounts the slept time")
 				} else {
@@ -80,7 +81,7 @@ func runC20(c *core.Ctx) {
 				}
 			}
 			// excluded: added exactly under the excluded-kind test
-			okk, w, hit := condMust(c, bw, s, core.IsReturn, isStoreTo(c, "Backoffer.excludedSleep", fmt.Sprintf(add, "excludedSleep")+"*"), []string{"F:ok"})
+			okk, w, hit := condMust(c, bw, s, core.IsReturn, isStoreTo(c, "Backoffer.excludedSleep", fmt.Sprintf(add, "excludedSleep")+"*||"+fmt.Sprintf(addH, "excludedSleep")+"*"), []string{"F:ok"})
 			if okk {
 				a.ok(fname(bw)+" excludedSleep += realSleep", s, "excluded kinds account into excludedSleep")
 			} else {
